@@ -297,6 +297,8 @@ def run(ctx):
         st.tuples(st.just('newthread'), st.just(''), S.u64, st.integers(0, 3), st.integers(0, 15)),
         st.tuples(st.just('exec'), st.just(''), S.u64, st.integers(0, 3), st.integers(0, 15)),
         st.tuples(st.just('tracesingle'), st.just('TRACE_DATA_THREAD_TERMINATE_PID'), st.integers(1, 50000), st.integers(0, 3), st.integers(0, 15)),
+        # a terminate record naming the emitting thread itself (it is NOT a map-updating record: the attribution stays)
+        st.tuples(st.just('tracesingle'), st.just('TRACE_DATA_THREAD_TERMINATE'), st.sampled_from([0, 4, 7, 11, 14, 18, 21]), st.integers(0, 3), st.integers(0, 15)),
         st.tuples(st.just('sample'), st.just(''), S.u64, st.integers(0, 3), st.sampled_from([9, 11, 13, 15, 15, 7, 6])),
         st.tuples(st.just('sample'), st.just(''), S.u64, st.integers(1, 3), st.sampled_from([9, 13, 15]))).map(list)
     op = st.one_of(SC.op_strategy(), SC.op_strategy(), map_ops)
